@@ -195,6 +195,230 @@ def tbe (r : T) (bs : List T) : Out (List Rat) :=
   | .panic => .panic
   | .nan => .nan
 
+/- ## what else the two functions do to the reference tree -/
+
+/- `e.Right().SetName("")` / `e.Left().SetName("")` for every end of every branch that is
+   not a `Tip()` (fbp.go:33-40, tbe.go:198-205): every node with children loses its name,
+   except a root with a single neighbour (it is a tip) — a root without branch is not visited. -/
+mutual
+def blankBelow : T → T
+  | .node d p [] => .node d p []
+  | .node d p (k :: ks) => .node ⟨"", d.comments⟩ p (blankL (k :: ks))
+def blankL : Kids → Kids
+  | [] => []
+  | (e, t) :: r => (e, blankBelow t) :: blankL r
+end
+
+def blankNames : T → T
+  | .node d p k => .node (if k.length == 1 || k.isEmpty then d else ⟨"", d.comments⟩) p (blankL k)
+
+/- the supports written back on the branches, in `Edges()` order -/
+mutual
+def setSupsT : T → List Rat → T × List Rat
+  | .node d p k, l => let (k', l') := setSupsL k l; (.node d p k', l')
+def setSupsL : Kids → List Rat → Kids × List Rat
+  | [], l => ([], l)
+  | (e, t) :: r, l =>
+    let e' := match l with
+      | [] => e
+      | x :: _ => { e with sup := x }
+    let (t', l₁) := setSupsT t l.tail
+    let (r', l₂) := setSupsL r l₁
+    ((e', t') :: r', l₂)
+end
+
+/-- the reference tree as the function leaves it: names blanked, supports written -/
+def annotated (r : T) (sups : List Rat) : T := (setSupsT (blankNames r) sups).1
+
+/- ## TBE with `--moved-taxa` / `--per-branches` / `--out-raw` (tbe.go:17-93, 232-330, 346-389) -/
+
+/-- state of `minTransferDistRecur` when `absent = false`: no early stop, the branches at the
+    least distance (`minedges`, bootstrap branch ids = positions in `Edges()`), every `ones[id]` -/
+structure FS where
+  dist : Int
+  minedges : List Nat
+  ones : List (Nat × Nat)
+  deriving Repr
+
+/-- tbe.go:121-142 -/
+def visitFull (p n : Int) (id r ones : Nat) (st : FS) : FS :=
+  let d := edgeDist p n r ones
+  let me := if d < st.dist then [] else st.minedges
+  if d ≤ st.dist then ⟨d, me ++ [id], (id, ones) :: st.ones⟩ else ⟨st.dist, me, (id, ones) :: st.ones⟩
+
+/- the branch above child number `j` of a node whose first child branch has id `c` has id
+   `c + Σ_{i<j} (1 + #branches below child i)` (pre-order numbering, tbe.go:218) -/
+mutual
+def fullNode (light : String → Bool) (p n : Int) : T → Nat → FS → Nat × FS
+  | .node d _ [], id, st =>
+    let ones := if light d.name then 0 else 1
+    (ones, visitFull p n id 1 ones st)
+  | .node _ _ (k :: ks), id, st =>
+    let (ones, st') := fullKids light p n (k :: ks) (id + 1) st
+    (ones, visitFull p n id (leavesL (k :: ks)).length ones st')
+def fullKids (light : String → Bool) (p n : Int) : Kids → Nat → FS → Nat × FS
+  | [], _, st => (0, st)
+  | (_, t) :: rest, c, st =>
+    let (o₁, st₁) := fullNode light p n t c st
+    let (o₂, st₂) := fullKids light p n rest (c + 1 + (splitsL t.kids).length) st₁
+    (o₁ + o₂, st₂)
+end
+
+def onesAt (l : List (Nat × Nat)) (id : Nat) : Nat := (l.lookup id).getD 0
+
+/- `speciesToMoveRecursive` below the root: (species to add, species to remove) -/
+mutual
+def stmNode (minedge : Nat) (ones : List (Nat × Nat)) : T → Nat → Bool → List String × List String
+  | .node d _ k, id, want0 =>
+    let want := if id == minedge then !want0 else want0
+    let o := onesAt ones id
+    let a₀ := if k.isEmpty && want && o == 0 then [d.name] else []
+    let r₀ := if k.isEmpty && !want && o == 1 then [d.name] else []
+    let size := if k.isEmpty then 1 else (leavesL k).length
+    if (want && o == size) || (!want && o == 0) then (a₀, r₀)
+    else
+      let (a, r) := stmKids minedge ones k (id + 1) want
+      (a₀ ++ a, r₀ ++ r)
+def stmKids (minedge : Nat) (ones : List (Nat × Nat)) : Kids → Nat → Bool → List String × List String
+  | [], _, _ => ([], [])
+  | (_, t) :: rest, c, want =>
+    let (a₁, r₁) := stmNode minedge ones t c want
+    let (a₂, r₂) := stmKids minedge ones rest (c + 1 + (splitsL t.kids).length) want
+    (a₁ ++ a₂, r₁ ++ r₂)
+end
+
+/-- `MinTransferDist(…, absent = false)`: distance, closest branches, and for each of them the
+    species to add and to remove (tbe.go:37-60) -/
+def minTransferFull (light : String → Bool) (p n : Int) (b : T) :
+    Int × List (Nat × List String × List String) :=
+  let st := (fullKids light p n b.kids 0 ⟨p - 1, [], []⟩).2
+  let sizes : List Nat := b.splits.map fun s => s.below.length
+  (st.dist, st.minedges.map fun m =>
+    let nsub : Int := ((sizes.getD m 0 : Nat) : Int)
+    let onesSub : Int := ((onesAt st.ones m : Nat) : Int)
+    let zerosSub := nsub - onesSub
+    let onesTotal := n - p
+    let zerosTotal := p
+    let opsOnesIn := zerosSub + (onesTotal - onesSub)
+    let opsZerosIn := onesSub + (zerosTotal - zerosSub)
+    let (a, r) := stmKids m st.ones b.kids 0 (decide (opsZerosIn < opsOnesIn))
+    (m, a, r))
+
+/-- the accumulators of `TBE` -/
+structure Acc where
+  sups : List Rat                          -- raw supports per reference branch
+  sumNb : List Rat                         -- sumNbClosestBranches (indexed by branch position = id)
+  moved : List (String × Rat)              -- movedspecies per tip
+  perBranch : List (List (String × Rat))   -- movedperbranch per reference branch, per tip
+  deriving Repr
+
+def addAt (l : List (String × Rat)) (x : String) (v : Rat) : List (String × Rat) :=
+  l.map fun (y, w) => if y == x then (y, w + v) else (y, w)
+
+/-- `int(math.Ceil(1.0/distcutoff + 1.0))` -/
+def minDepth (cutoff : Rat) : Int := (1 / cutoff + 1).ceil
+
+/-- one bootstrap tree (tbe.go:232-296), `computeavgtaxa = computeperbranchtaxa = true`, one thread:
+    returns the new accumulators -/
+def logStep (r b : T) (cutoff : Rat) (acc : Acc) : Acc :=
+  let n := ntips r
+  let md := minDepth cutoff
+  let zero : List (String × Rat) := r.tipNames.map fun x => (x, 0)
+  -- fold over the reference branches
+  let init : List Rat × List Rat × List (List (String × Rat)) × List (String × Rat) × Nat :=
+    ([], [], [], zero, 0)
+  let res := (List.zip r.splits (List.zip acc.sups (List.zip acc.sumNb acc.perBranch))).foldl
+    (fun (st : List Rat × List Rat × List (List (String × Rat)) × List (String × Rat) × Nat) x =>
+      let (sups, sumNb, perB, tmp, close) := st
+      let s := x.1
+      let sup := x.2.1
+      let nb := x.2.2.1
+      let pb := x.2.2.2
+      let p := topoDepth n s
+      if p > 1 then
+        if found r.tipNames (tbeIndex b) s then
+          (sups ++ [incr sup 0], sumNb ++ [nb + 1], perB ++ [pb], tmp, if p ≥ md then close + 1 else close)
+        else
+          let (dist, mins) := minTransferFull (lightOf n s) p n b
+          let k : Rat := ((mins.length : Nat) : Rat)
+          let norm : Rat := (dist : Rat) / ((p : Rat) - 1)
+          let species : List String := mins.flatMap fun m => m.2.1 ++ m.2.2
+          let counted := decide (norm ≤ cutoff) && decide (p ≥ md)
+          let tmp' := if counted then species.foldl (fun t x => addAt t x (1 / k)) tmp else tmp
+          let pb' := species.foldl (fun t x => addAt t x (1 / k)) pb
+          (sups ++ [incr sup (dist : Rat)], sumNb ++ [nb + k], perB ++ [pb'], tmp', if counted then close + 1 else close)
+      else (sups ++ [sup], sumNb ++ [nb], perB ++ [pb], tmp, close))
+    init
+  let (sups, sumNb, perB, tmp, close) := res
+  let moved := if close > 0 then
+      acc.moved.map fun (x, w) => (x, w + ((tmp.lookup x).getD 0) / ((close : Nat) : Rat))
+    else acc.moved
+  ⟨sups, sumNb, moved, perB⟩
+
+/-- what `TBE(…, outrawtree, computeavgtaxa, computeperbranchtaxa = true, …)` writes besides the
+    supports, for an accepted collection: the raw tree names `(i, avgdist, depth)`, the
+    `Taxon tIndex` table, the per-branch table `(id, depth, AvgNbClosestBranches, per tip)` -/
+structure LogOut where
+  raw : List (Nat × Rat × Int)
+  taxa : List (String × Rat)
+  branches : List (Int × Int × Rat × List Rat)
+  deriving Repr
+
+def tbeLog (r : T) (bs : List T) (cutoff : Rat) : LogOut :=
+  let zero : List (String × Rat) := r.tipNames.map fun x => (x, 0)
+  let acc0 : Acc := ⟨r.splits.map fun _ => NIL, r.splits.map fun _ => 0, zero, r.splits.map fun _ => zero⟩
+  let acc := bs.foldl (fun a b => logStep r b cutoff a) acc0
+  let nboot : Rat := ((bs.length : Nat) : Rat)
+  let n := ntips r
+  let idx := List.range r.splits.length
+  { raw := (List.zip idx (List.zip r.splits acc.sups)).filterMap fun x =>
+      if x.2.2 != NIL then some (x.1, x.2.2 / nboot, topoDepth n x.2.1) else none,
+    taxa := acc.moved.map fun (x, w) => (x, w * 100 / nboot),
+    branches := (List.zip r.splits (List.zip acc.sumNb acc.perBranch)).filterMap fun x =>
+      if x.1.tip then none
+      else some (x.1.e.id, topoDepth n x.1, x.2.1 / nboot, x.2.2.map fun y => y.2 / nboot) }
+
+/- ## command-line glue (cmd/classical.go, cmd/booster.go, cmd/root.go readTree / readTrees) -/
+
+/-- what a Newick input file is made of, line-wise: a tree terminated by `;`, a blank
+    line, text that is not a terminated tree -/
+inductive Item (α : Type) where
+  | tree (a : α)
+  | blank
+  | junk
+  deriving Repr
+
+/-- `readTree` → `utils.ReadTree` → `newick.NewParser(reader).Parse()`: the FIRST tree of the
+    file, whatever follows; blank lines before it are skipped; other text first is a parse error. -/
+def cliReference {α : Type} : List (Item α) → Option α
+  | [] => none
+  | .tree a :: _ => some a
+  | .blank :: r => cliReference r
+  | .junk :: _ => none
+
+/- `readTrees` → `utils.ReadMultiTrees`: `ReadUntilSemiColon` glues lines up to the next one ending
+   with `;` (blank lines vanish into the next chunk, other text spoils it: parse error and
+   the reader stops); at the end of the input, left-over text — or no tree at all — is
+   one erroneous item (`Trees.Err`).  `dirty` = unterminated text is pending, `sent` = number
+   of items already sent. -/
+def cliStreamGo {α : Type} : List (Item α) → Bool → Nat → List (Option α)
+  | [], dirty, sent => if dirty || sent == 0 then [none] else []
+  | .blank :: r, dirty, sent => cliStreamGo r dirty sent
+  | .junk :: r, _, sent => cliStreamGo r true sent
+  | .tree a :: r, dirty, sent => if dirty then [none] else some a :: cliStreamGo r false (sent + 1)
+
+def cliStream {α : Type} (items : List (Item α)) : List (Option α) := cliStreamGo items false 0
+
+/-- `gotree compute support fbp|tbe -i ref -b boots`: an erroneous item of the stream makes
+    the function return its error when it reaches it (fbp.go:58, tbe.go:214); before that
+    only a tree on other taxa can happen, an error as well. -/
+def cliRun (f : T → List T → Out (List Rat)) (refFile bootFile : List (Item T)) : Out (List Rat) :=
+  match cliReference refFile with
+  | none => .err
+  | some r =>
+    let st := cliStream bootFile
+    if st.any Option.isNone then .err else f r (st.filterMap id)
+
 /- ## the repaired defects, as variants (AGENTS.md "State of /repo") -/
 
 /-- F14 (before ba522d8): `if inerr = …; err != nil` never fires — the bootstrap
